@@ -103,6 +103,11 @@ CHECKS = {
             "Every float inside every exported value is recorded with its IEEE-754 class (zero, subnormal, normal, inf, nan) and TLC accepts the record only if no class is inf or nan anywhere in the value (sequences, tuples/structs, unions, optionals, mappings); a panic or hang is an event without an action. Inputs: literal spellings (overflowing exponents, 300-400-digit mantissas, underscores, default values, JSON text), all ~220 root-scope signatures that mention float/Complex/Duration/Datetime/Fraction/distributions with each parameter swept over 34 float and 20 integer edge values (0, -0, subnormals, +-1, domain edges, exp/gamma/square overflow thresholds, 1e308-scale, integers up to 10^400) and pairs of parameters, every distribution constructor x edge parameters x every method x edge arguments, and random operator/function compositions to depth 4.",
             "Bounded sampling of the double range by edge classes, not exhaustive; lazy sequences are forced for 16 elements; float values that exist only inside closures or never-exported intermediates are not observed.",
             "DESIGN.md 6 C13"),
+    "C10": ("model_checking",
+            "TLA+ demand model of generator pipelines (XrBound: TLC enumerates source . adaptor* . sink over finite / infinite / never-yielding streams and classifies each demand as value, error or diverge) replayed under configured limits with a watchdog; time-limit clause by XrRuntime trace validation",
+            "Every pipeline of 9 sources x up to 2 adaptors (22) x 14 sinks is classified by the model; under search + call + size limits (two scales) every evaluation must stop before the watchdog, a diverging demand by a violation or an error value (values are compared with the model's as a conformance signal: 0 disagreements). The same watchdog sweep substitutes an infinite (count()) or huge (range(10^15)) sequence/generator and huge integers into every parameter of every root-scope signature and runs ~120 adversarial numeric / collection expressions and recursion shapes. Time-limited programs that sleep across the deadline or spin are traced and XrRuntime accepts the trace only if no user call (fresh or tail) begins after a TimeChk that found the deadline passed.",
+            "Termination is observed (12 s watchdog for limits of a few thousand steps), not proved; search permits are not instrumented, so proportionality to the search limit is only seen through outcomes at two limit scales; builtins whose parameter types have no canonical inhabitant are not swept.",
+            "DESIGN.md 6 C10"),
 }
 
 NOT_YET = {}
